@@ -93,6 +93,200 @@ fn dump_template(out: &mut impl std::io::Write, case: &str, class: &str, tmpl: &
 }
 
 // ------------------------------------------------------------------------------------------
+// operand stack: instruction effects and the heights the engine really has
+//
+//     O <TAB> case <TAB> stream <TAB> class <TAB> tok tok … <TAB> pc:h pc:h …|pc:h …|…
+//
+// one token per pc for the machine of `MJ/Model/Ops.lean` (`e<a>_<b>` pops a pushes b, `dy` pops a
+// run-time count, `ul<n>` UnpackLists, `c<n>` / `cd` CallFunction, the rest as in the `D` lines), and
+// the distinct traces (program counter and operand-stack height in front of every instruction, hook
+// `verif_hooks::opstack`) of the activations that ran on the stream.  `drive_c05` runs the model
+// along every trace.
+
+/// The match is exhaustive on purpose (a new instruction breaks the build).
+fn op_tok(i: &Instruction<'_>) -> String {
+    use Instruction::*;
+    let e = |a: usize, b: usize| format!("e{}_{}", a, b);
+    match i {
+        EmitRaw(_) | FastSuper | CallBlock(_) | Enclose(_) => e(0, 0),
+        StoreLocal(_) | Emit | DiscardTop | LoadBlocks | Include(_) => e(1, 0),
+        Lookup(_) | LoadConst(_) | GetClosure => e(0, 1),
+        GetAttr(_) | Neg | Not | IsUndefined => e(1, 1),
+        ExportLocals => "xl".into(),
+        SetAttr(_) => e(2, 0),
+        GetItem | Add | Sub | Mul | Div | IntDiv | Rem | Pow | Eq | Ne | Gt | Gte | Lt | Lte | StringConcat | In => e(2, 1),
+        Slice => e(4, 1),
+        CompareAndPreserve(_) | Swap => e(2, 2),
+        DupTop => e(1, 2),
+        BuildMap(n) | BuildKwargs(n) => e(2 * n, 1),
+        MergeKwargs(n) => e(*n, 1),
+        BuildList(Some(n)) | BuildTuple(Some(n)) => e(*n, 1),
+        BuildList(None) | BuildTuple(None) => "dy".into(),
+        UnpackList(n) => e(1, *n),
+        UnpackLists(n) => format!("ul{}", n),
+        ApplyFilter(_, Some(n), _) | PerformTest(_, Some(n), _) => e(*n as usize, 1),
+        CallMethod(_, Some(n)) | CallObject(Some(n)) => e(*n as usize, 1),
+        ApplyFilter(_, None, _) | PerformTest(_, None, _) | CallMethod(_, None) | CallObject(None) => "dy".into(),
+        CallFunction(_, Some(n)) => format!("c{}", n),
+        CallFunction(_, None) => "cd".into(),
+        PushWith => "pw".into(),
+        PopFrame => "pf".into(),
+        PushLoop(flags) => format!("pl{}", flags),
+        Iterate(t) => format!("it{}", t),
+        PushDidNotIterate => "dn".into(),
+        PopLoopFrame => "plf".into(),
+        BeginCapture(_) => "bc".into(),
+        EndCapture => "ec".into(),
+        PushAutoEscape => "pa".into(),
+        PopAutoEscape => "qa".into(),
+        Jump(t) => format!("j{}", t),
+        JumpIfFalse(t) => format!("jf{}", t),
+        JumpIfFalseOrPop(t) => format!("jfp{}", t),
+        JumpIfTrueOrPop(t) => format!("jtp{}", t),
+        FastRecurse => "fr".into(),
+        Return => "ret".into(),
+        BuildMacro(_, off, _) => format!("bm{}", off),
+    }
+}
+
+fn op_stream(instrs: &Instructions<'_>) -> Vec<String> {
+    let mut v = vec![];
+    let mut pc = 0u32;
+    while let Some(i) = instrs.get(pc) {
+        v.push(op_tok(i));
+        pc += 1;
+    }
+    v
+}
+
+/// a cheap fingerprint of an instruction, to tell which stream an activation runs on
+fn op_print(i: &Instruction<'_>) -> u32 {
+    let t = op_tok(i);
+    let mut h: u32 = 2166136261;
+    for b in t.bytes() {
+        h = (h ^ b as u32).wrapping_mul(16777619);
+    }
+    h
+}
+
+thread_local! {
+    /// (activation, pc, height, fingerprint) of every dispatched instruction while recording
+    static OPS_EVENTS: std::cell::RefCell<Vec<(u64, u32, u32, u32)>> = const { std::cell::RefCell::new(Vec::new()) };
+    static OPS_ON: std::cell::Cell<bool> = const { std::cell::Cell::new(false) };
+}
+
+fn ops_install_hook() {
+    minijinja::verif_hooks::opstack::set_hook(Some(Box::new(|act, pc, height, instr| {
+        if OPS_ON.with(|x| x.get()) {
+            OPS_EVENTS.with(|e| {
+                let mut e = e.borrow_mut();
+                if e.len() < 4_000_000 {
+                    e.push((act, pc, height as u32, op_print(instr)));
+                }
+            });
+        }
+    })));
+}
+
+fn ops_record(on: bool) {
+    OPS_ON.with(|x| x.set(on));
+    if on {
+        OPS_EVENTS.with(|e| e.borrow_mut().clear());
+    }
+}
+
+/// the traces collected for the streams of one template
+struct OpsTraces {
+    /// (stream name, tokens, fingerprints)
+    streams: Vec<(String, Vec<String>, Vec<u32>)>,
+    traces: Vec<std::collections::BTreeSet<Vec<(u32, u32)>>>,
+    unmatched: usize,
+    events: usize,
+    /// the main stream has a `LoadBlocks` (`extends`): its activation goes on with the parent's
+    /// instructions at pc 0, one trace is then not the run of one stream
+    skip_main: bool,
+}
+
+impl OpsTraces {
+    fn new(tmpl: &minijinja::Template<'_, '_>) -> OpsTraces {
+        let c = get_compiled_template(tmpl);
+        let mut streams = vec![];
+        let prints = |ins: &Instructions<'_>| {
+            let mut v = vec![];
+            let mut pc = 0u32;
+            while let Some(i) = ins.get(pc) {
+                v.push(op_print(i));
+                pc += 1;
+            }
+            v
+        };
+        streams.push(("main".to_string(), op_stream(&c.instructions), prints(&c.instructions)));
+        for (name, b) in c.blocks.iter() {
+            streams.push((format!("block:{}", name), op_stream(b), prints(b)));
+        }
+        let n = streams.len();
+        let mut skip_main = false;
+        let mut pc = 0u32;
+        while let Some(i) = c.instructions.get(pc) {
+            if matches!(i, Instruction::LoadBlocks) {
+                skip_main = true;
+            }
+            pc += 1;
+        }
+        OpsTraces { streams, traces: vec![Default::default(); n], unmatched: 0, events: 0, skip_main }
+    }
+
+    /// takes the events recorded since `ops_record(true)`, one trace per activation, and files each
+    /// under the stream whose instructions it ran
+    fn absorb(&mut self) {
+        let events: Vec<(u64, u32, u32, u32)> = OPS_EVENTS.with(|e| std::mem::take(&mut *e.borrow_mut()));
+        let mut per_act: BTreeMap<u64, Vec<(u32, u32, u32)>> = BTreeMap::new();
+        for (act, pc, h, fp) in events {
+            per_act.entry(act).or_default().push((pc, h, fp));
+        }
+        for (_, tr) in per_act {
+            let found = self.streams.iter().position(|(_, _, fps)| {
+                tr.iter().all(|(pc, _, fp)| fps.get(*pc as usize) == Some(fp))
+            });
+            match found {
+                Some(0) if self.skip_main => self.unmatched += 1,
+                Some(i) => {
+                    if self.events < 400_000 {
+                        let t: Vec<(u32, u32)> = tr.iter().map(|(pc, h, _)| (*pc, *h)).collect();
+                        let n = t.len();
+                        if self.traces[i].insert(t) {
+                            self.events += n;
+                        }
+                    }
+                }
+                None => self.unmatched += 1,
+            }
+        }
+    }
+
+    fn dump(&self, out: &mut impl std::io::Write, case: &str, class: &str) {
+        for (i, (name, toks, _)) in self.streams.iter().enumerate() {
+            if self.traces[i].is_empty() {
+                continue;
+            }
+            let mut s = String::new();
+            for (n, t) in self.traces[i].iter().enumerate() {
+                if n > 0 {
+                    s.push('|');
+                }
+                for (m, (pc, h)) in t.iter().enumerate() {
+                    if m > 0 {
+                        s.push(' ');
+                    }
+                    write!(s, "{}:{}", pc, h).unwrap();
+                }
+            }
+            writeln!(out, "O\t{}\t{}\t{}\t{}\t{}", case, name, class, toks.join(" "), s).unwrap();
+        }
+    }
+}
+
+// ------------------------------------------------------------------------------------------
 // the shape language
 
 #[derive(Clone, Copy, PartialEq, Eq, Debug)]
@@ -102,6 +296,8 @@ enum Kind {
     ForEl, // for/else, child in else
     ForF,  // filtered for
     ForR,  // recursive for
+    /// recursive for with an else block (child in the body); iterates `tre`, which is empty when `xs` is
+    ForRE,
     With,
     Set,
     Filt,
@@ -138,12 +334,13 @@ enum Kind {
     /// inline `a if c else b`
     IfA,
 }
-const KINDS: [(Kind, &str); 29] = [
+const KINDS: [(Kind, &str); 30] = [
     (Kind::For, "for"),
     (Kind::ForE, "fore"),
     (Kind::ForEl, "forEl"),
     (Kind::ForF, "forf"),
     (Kind::ForR, "forr"),
+    (Kind::ForRE, "forre"),
     (Kind::With, "with"),
     (Kind::Set, "set"),
     (Kind::Filt, "filt"),
@@ -179,6 +376,15 @@ enum Leaf {
     Cont,
     Rec,
     RecF,
+    /// `loop(x)` inside an expression that has operands waiting on the stack: string concatenation
+    RecP,
+    /// … a call argument and a list literal under construction
+    RecL,
+    /// both forms in one loop: even recursion depths call from inside an expression with a waiting
+    /// operand (captured), odd depths through the `{{ loop(x) }}` fast path
+    RecM,
+    /// the other way round: fast path at even depths, captured call at odd depths
+    RecN,
     /// the body fails at run time here
     Fail,
     /// the body fails in the iteration where `x == k`
@@ -188,8 +394,24 @@ enum Leaf {
     /// every builtin filter / test / function that is handed the `State` is applied here
     Bi,
 }
-const LEAVES: [(Leaf, &str); 10] =
-    [(Leaf::Bi, "bi"), (Leaf::Fail, "fail"), (Leaf::FailK, "failk"), (Leaf::FailInc, "finc"), (Leaf::T, "T"), (Leaf::Empty, "empty"), (Leaf::Brk, "brk"), (Leaf::Cont, "cont"), (Leaf::Rec, "rec"), (Leaf::RecF, "recf")];
+const LEAVES: [(Leaf, &str); 14] = [
+    (Leaf::Bi, "bi"),
+    (Leaf::Fail, "fail"),
+    (Leaf::FailK, "failk"),
+    (Leaf::FailInc, "finc"),
+    (Leaf::T, "T"),
+    (Leaf::Empty, "empty"),
+    (Leaf::Brk, "brk"),
+    (Leaf::Cont, "cont"),
+    (Leaf::Rec, "rec"),
+    (Leaf::RecF, "recf"),
+    (Leaf::RecP, "recp"),
+    (Leaf::RecL, "recl"),
+    (Leaf::RecM, "recm"),
+    (Leaf::RecN, "recn"),
+];
+
+const SRC_CAPTURED_PENDING: &str = "{{ ('p' ~ loop(x) ~ 'q')|safe }}";
 
 #[derive(Clone, Debug)]
 struct Shape {
@@ -214,7 +436,10 @@ impl Shape {
         Some(Shape { kinds, leaf })
     }
     fn is_loop(k: Kind) -> bool {
-        matches!(k, Kind::For | Kind::ForE | Kind::ForEl | Kind::ForF | Kind::ForR)
+        matches!(k, Kind::For | Kind::ForE | Kind::ForEl | Kind::ForF | Kind::ForR | Kind::ForRE)
+    }
+    fn is_rec_leaf(l: Leaf) -> bool {
+        matches!(l, Leaf::Rec | Leaf::RecF | Leaf::RecP | Leaf::RecL | Leaf::RecM | Leaf::RecN)
     }
     fn is_boundary(k: Kind) -> bool {
         matches!(k, Kind::Mac | Kind::Call | Kind::Blk | Kind::TMac | Kind::TCal | Kind::TBlk)
@@ -245,7 +470,7 @@ impl Shape {
                 }
                 false
             }
-            Leaf::Rec | Leaf::RecF => {
+            Leaf::Rec | Leaf::RecF | Leaf::RecP | Leaf::RecL | Leaf::RecM | Leaf::RecN => {
                 // the innermost loop (whose *body* we are in) must be the recursive one and no
                 // macro/call/block boundary may lie between
                 for k in self.kinds.iter().rev() {
@@ -253,7 +478,7 @@ impl Shape {
                         return false;
                     }
                     match k {
-                        Kind::ForR => return true,
+                        Kind::ForR | Kind::ForRE => return true,
                         Kind::For | Kind::ForE | Kind::ForF => return false,
                         // in the else branch of a loop that loop is already gone; look further out
                         Kind::ForEl => {}
@@ -280,7 +505,7 @@ impl Shape {
                             // keep looking for the loop that is actually left
                             continue;
                         }
-                        Kind::For | Kind::ForE | Kind::ForF | Kind::ForR => break,
+                        Kind::For | Kind::ForE | Kind::ForF | Kind::ForR | Kind::ForRE => break,
                         _ => {}
                     }
                 }
@@ -299,6 +524,10 @@ impl Shape {
             }
             Leaf::Rec => "recurse".into(),
             Leaf::RecF => "recurse-captured".into(),
+            Leaf::RecP => "recurse-in-expression-operand-waiting".into(),
+            Leaf::RecL => "recurse-in-expression-call-and-list-waiting".into(),
+            Leaf::RecM => "recurse-mixed-expression-outside".into(),
+            Leaf::RecN => "recurse-mixed-fast-outside".into(),
             Leaf::T => "plain".into(),
             Leaf::Empty => "empty-body".into(),
             Leaf::Bi => "builtins-with-state".into(),
@@ -326,7 +555,7 @@ impl Shape {
                         Kind::With => between.push("with"),
                         Kind::Set | Kind::Filt => between.push("capture"),
                         Kind::Ae0 | Kind::Ae1 => between.push("autoescape"),
-                        Kind::For | Kind::ForE | Kind::ForF | Kind::ForR => between.push("loop"),
+                        Kind::For | Kind::ForE | Kind::ForF | Kind::ForR | Kind::ForRE => between.push("loop"),
                         Kind::Mac | Kind::Call => between.push("macro"),
                         Kind::Blk => between.push("block"),
                         Kind::SeqI => between.push("include"),
@@ -357,12 +586,22 @@ impl Shape {
             if self.leaf == Leaf::Bi {
                 s.push_str(&bi_src());
             }
+            if self.leaf == Leaf::RecM || self.leaf == Leaf::RecN {
+                let captured_when = if self.leaf == Leaf::RecM { 0 } else { 1 };
+                write!(
+                    s,
+                    "{{% if loop.depth0 % 2 == {captured_when} %}}{SRC_CAPTURED_PENDING}{{% else %}}{{{{ loop(x) }}}}{{% endif %}}"
+                )
+                .unwrap();
+            }
             s.push_str(match self.leaf {
-                Leaf::T | Leaf::Empty | Leaf::Bi => "",
+                Leaf::T | Leaf::Empty | Leaf::Bi | Leaf::RecM | Leaf::RecN => "",
                 Leaf::Brk => "{% break %}",
                 Leaf::Cont => "{% continue %}",
                 Leaf::Rec => "{{ loop(x) }}",
                 Leaf::RecF => "{{ loop(x)|fz }}",
+                Leaf::RecP => SRC_CAPTURED_PENDING,
+                Leaf::RecL => "{{ pj('p', ['l', loop(x)]) }}",
                 Leaf::Fail => "{{ fail() }}",
                 Leaf::FailInc => "{% include 'bad.html' %}",
                 Leaf::FailK => "{{ failif(x == k) }}",
@@ -398,6 +637,7 @@ impl Shape {
             Kind::ForEl => write!(s, "{{% for x in xs %}}{a}{{% else %}}{e}{child}{f}{{% endfor %}}{c}"),
             Kind::ForF => write!(s, "{{% for x in xs if x != 2 %}}{a}{child}{b}{{% endfor %}}{c}"),
             Kind::ForR => write!(s, "{{% for x in tree recursive %}}{a}{child}{b}{{% endfor %}}{c}"),
+            Kind::ForRE => write!(s, "{{% for x in tre recursive %}}{a}{child}{b}{{% else %}}{e}{{% endfor %}}{c}"),
             Kind::With => write!(s, "{{% with w = 'w{d}' %}}{a}{child}{b}{{% endwith %}}{c}"),
             Kind::Set => write!(s, "{{% set v %}}{a}{child}{b}{{% endset %}}{{{{ v }}}}{c}"),
             Kind::Filt => write!(s, "{{% filter fz %}}{a}{child}{b}{{% endfilter %}}{c}"),
@@ -475,6 +715,9 @@ struct Scope {
     ma: Option<usize>,
     /// the current block as `State::current_block` reports it
     block: Option<String>,
+    /// `loop.depth0` of the innermost live loop when that loop is recursive (a new loop started
+    /// inside a recursive one continues its depth count, a recursion level is one deeper)
+    loop_rec: Option<usize>,
 }
 
 #[derive(Clone, Copy, PartialEq, Eq, Debug)]
@@ -525,6 +768,15 @@ impl Spec<'_> {
         vec![XVal::Tree(vec![XVal::Tree(vec![])]), XVal::Tree(vec![])]
     }
 
+    /// `tre`: [[[[]], []], []], or nothing at all when `xs` is empty
+    fn tre(&self) -> Vec<XVal> {
+        if self.p.xs.is_empty() {
+            return vec![];
+        }
+        let e = || XVal::Tree(vec![]);
+        vec![XVal::Tree(vec![XVal::Tree(vec![e()]), e()]), e()]
+    }
+
     /// `A child B`
     fn body(&mut self, i: usize, ta: char, tb: char, sc: &Scope, out: &mut String) -> Flow {
         let d = i + 1;
@@ -546,9 +798,11 @@ impl Spec<'_> {
     /// engine's "did not iterate" flag would be set, both ways
     fn run_loop(&mut self, i: usize, items: &[XVal], sc: &Scope, out: &mut String) -> (bool, Flow) {
         let mut else_runs = items.is_empty();
+        let recursive = matches!(self.shape.kinds[i], Kind::ForR | Kind::ForRE);
         for (n, item) in items.iter().enumerate() {
             let mut inner = sc.clone();
             inner.x = item.clone();
+            inner.loop_rec = if recursive { Some(sc.loop_rec.map_or(0, |d| d + 1)) } else { None };
             let f = self.body(i, 'A', 'B', &inner, out);
             if f == Flow::Fail {
                 return (false, Flow::Fail);
@@ -585,21 +839,36 @@ impl Spec<'_> {
                         Flow::Normal
                     }
                 }
-                Leaf::Rec | Leaf::RecF => {
+                Leaf::Rec | Leaf::RecF | Leaf::RecP | Leaf::RecL | Leaf::RecM | Leaf::RecN => {
                     // position of the innermost recursive loop
-                    let j = (0..self.shape.kinds.len()).rev().find(|j| self.shape.kinds[*j] == Kind::ForR).unwrap();
+                    let j = (0..self.shape.kinds.len())
+                        .rev()
+                        .find(|j| matches!(self.shape.kinds[*j], Kind::ForR | Kind::ForRE))
+                        .unwrap();
                     let items = match &sc.x {
                         XVal::Tree(v) => v.clone(),
                         _ => vec![],
                     };
-                    // the recursion runs in the scope of the call site
-                    if self.shape.leaf == Leaf::RecF {
+                    let depth0 = sc.loop_rec.unwrap_or(0);
+                    // how the call is written at this recursion depth: (text in front, text behind)
+                    // for the captured forms, nothing for the fast path
+                    let wrap: Option<(&str, &str)> = match self.shape.leaf {
+                        Leaf::RecF => Some(("(", ")")),
+                        Leaf::RecP => Some(("p", "q")),
+                        Leaf::RecL => Some(("pl", "")),
+                        Leaf::RecM if depth0 % 2 == 0 => Some(("p", "q")),
+                        Leaf::RecN if depth0 % 2 == 1 => Some(("p", "q")),
+                        _ => None,
+                    };
+                    // the recursion runs in the scope of the call site; the else block of the loop
+                    // belongs to the statement, not to the recursion levels
+                    if let Some((pre, post)) = wrap {
                         let mut buf = String::new();
                         let (_, f) = self.run_loop(j, &items, sc, &mut buf);
                         if f == Flow::Fail {
                             return f;
                         }
-                        write!(out, "({})", buf).unwrap();
+                        write!(out, "{}{}{}", pre, buf, post).unwrap();
                     } else {
                         let (_, f) = self.run_loop(j, &items, sc, out);
                         if f == Flow::Fail {
@@ -630,6 +899,15 @@ impl Spec<'_> {
                 let (_, f) = self.run_loop(i, &Spec::tree(), sc, out);
                 if f == Flow::Fail {
                     return f;
+                }
+            }
+            Kind::ForRE => {
+                let (else_runs, f) = self.run_loop(i, &self.tre(), sc, out);
+                if f == Flow::Fail {
+                    return f;
+                }
+                if else_runs {
+                    self.piece(d, 'E', sc, out);
                 }
             }
             Kind::ForE => {
@@ -717,6 +995,9 @@ impl Spec<'_> {
             Kind::Mac | Kind::Blk => {
                 let mut inner = sc.clone();
                 inner.act_base = sc.ae;
+                if self.shape.kinds[i] == Kind::Mac {
+                    inner.loop_rec = None; // a macro runs in a context of its own
+                }
                 inner.block = if self.shape.kinds[i] == Kind::Blk { Some(format!("b{d}")) } else { None };
                 // a macro writes into its own buffer, which is dropped when it fails
                 let mut buf = String::new();
@@ -735,6 +1016,7 @@ impl Spec<'_> {
                 if self.shape.kinds[i] == Kind::TMac {
                     inner.ma = Some(d);
                     inner.block = None;
+                    inner.loop_rec = None;
                 } else {
                     inner.block = Some(format!("t{d}"));
                 }
@@ -750,6 +1032,7 @@ impl Spec<'_> {
                 let mut inner = sc.clone();
                 inner.act_base = sc.ae;
                 inner.block = None;
+                inner.loop_rec = None;
                 let mut buf = String::new();
                 let f = self.body(i, 'A', 'B', &inner, &mut buf);
                 out.push_str("((");
@@ -792,6 +1075,7 @@ impl Spec<'_> {
                 let mut inner = sc.clone();
                 inner.act_base = sc.ae;
                 inner.block = None;
+                inner.loop_rec = None;
                 let mut buf = String::new();
                 let f = self.body(i, 'A', 'B', &inner, &mut buf);
                 if f == Flow::Fail {
@@ -811,7 +1095,7 @@ impl Spec<'_> {
 
     fn run(shape: &Shape, p: &Params) -> Option<String> {
         let mut sp = Spec { shape, p, stray: false };
-        let sc = Scope { ae: p.base_ae, act_base: p.base_ae, w: None, x: XVal::Undef, ma: None, block: None };
+        let sc = Scope { ae: p.base_ae, act_base: p.base_ae, w: None, x: XVal::Undef, ma: None, block: None, loop_rec: None };
         let mut out = String::new();
         sp.piece(0, 'S', &sc, &mut out);
         let f = sp.node(0, &sc, &mut out);
@@ -971,6 +1255,14 @@ fn shape_env_cfg(cfg: Cfg, shape_src: Option<&str>) -> Environment<'static> {
             Err(_) => Value::from("!E"),
         }
     });
+    // a call whose first argument and whose list argument wait on the operand stack while `loop(x)` runs
+    env.add_function("pj", |a: String, l: Vec<Value>| -> Value {
+        let mut s = a;
+        for v in l.iter() {
+            s.push_str(&v.to_string());
+        }
+        Value::from_safe_string(s)
+    });
     env.add_function("issafe", |v: Value| -> String { if v.is_safe() { "1".into() } else { "0".into() } });
     env.add_function("probe", |state: &minijinja::State| -> String {
         // template name, current block and auto-escape mode as the engine's State reports them
@@ -1017,7 +1309,12 @@ const ENTRIES: [(Entry, &str); 4] = [
 
 fn engine_ctx(p: &Params) -> Value {
     let tree = Value::from(minijinja::value::Serde(serde_json::json!([[[]], []])));
-    minijinja::context! { xs => p.xs.clone(), c => p.c, k => p.k, h => "<", bz => "<", tree => tree }
+    let tre = if p.xs.is_empty() {
+        Value::from(Vec::<Value>::new())
+    } else {
+        Value::from(minijinja::value::Serde(serde_json::json!([[[[]], []], []])))
+    };
+    minijinja::context! { xs => p.xs.clone(), c => p.c, k => p.k, h => "<", bz => "<", tree => tree, tre => tre }
 }
 
 fn mismatch_text(ms: &[balance::Mismatch]) -> String {
@@ -1150,7 +1447,7 @@ fn bi_rest_expected() -> &'static str {
 }
 
 fn params_for(shape: &Shape) -> Vec<Params> {
-    let uses_xs = shape.kinds.iter().any(|k| matches!(k, Kind::For | Kind::ForE | Kind::ForEl | Kind::ForF));
+    let uses_xs = shape.kinds.iter().any(|k| matches!(k, Kind::For | Kind::ForE | Kind::ForEl | Kind::ForF | Kind::ForRE));
     let uses_c = shape.kinds.iter().any(|k| matches!(k, Kind::IfC | Kind::IfEl | Kind::IfA));
     let uses_k = shape.kinds.iter().any(|k| matches!(k, Kind::IfK)) || shape.leaf == Leaf::FailK;
     let mut v = vec![];
@@ -1278,7 +1575,8 @@ fn run_dynamic(
             // what happens to text that was captured before a `break`/`continue` left the capture
             // is not the property's business (the engine drops it, like the reference does): for
             // those shapes only the text the reference produces must appear, in order
-            let tolerant = shape.class().contains("capture")
+            let tolerant = matches!(shape.leaf, Leaf::Brk | Leaf::Cont)
+                && shape.class().contains("capture")
                 && (subsequence(a, got) || spec_b.as_ref().map_or(false, |b| subsequence(b, got)));
             if got != a && Some(got) != spec_b.as_ref() && !tolerant {
                 fails.push(format!("output[{}]expected[{}]", got, a));
@@ -1294,6 +1592,104 @@ fn run_dynamic(
         format!("fail:{}", fails.join("|"))
     }
 }
+
+/// Failure at every instruction position: the template is rendered with 1, 2, 3, … units of fuel, so
+/// that the run stops with an error in front of every instruction it dispatches in turn — inside
+/// macro bodies, call blocks, blocks, includes and imports as well as between them.  Whatever position
+/// the error comes from, every nested evaluation it passes through on its way out (`Macro::call`,
+/// `State::render_block`, `Include`, `CallBlock`, `FastSuper`, filter / function calls when the call
+/// snapshots are on) must hand back the execution state it was given (`ExecSnapshot` comparison by
+/// the hooks), and every activation that did finish before must have restored its depths.
+/// Returns (positions tried, nested evaluations that ended in an error, first failure).
+fn out_of_fuel(e: &minijinja::Error) -> bool {
+    let mut cur: Option<&(dyn std::error::Error + 'static)> = Some(e);
+    while let Some(x) = cur {
+        if let Some(m) = x.downcast_ref::<minijinja::Error>() {
+            if m.kind() == minijinja::ErrorKind::OutOfFuel {
+                return true;
+            }
+        }
+        cur = x.source();
+    }
+    false
+}
+
+fn fuel_sweep(env: &mut Environment<'static>, tname: &str, p: &Params) -> (usize, u64, Option<String>) {
+    let ctx = engine_ctx(p);
+    let mut n: u64 = 1;
+    let mut tried = 0usize;
+    let mut nested_err_total = 0u64;
+    let mut failure: Option<String> = None;
+    while n <= 6000 {
+        env.set_fuel(Some(n));
+        let _ = balance::take_mismatches();
+        let _ = balance::take_counters();
+        let _ = balance::take_nested_mismatches();
+        let _ = balance::take_nested_counters();
+        let res = guarded(|| env.get_template(tname).unwrap().render(ctx.clone()));
+        tried += 1;
+        let ms = balance::take_mismatches();
+        let nms = balance::take_nested_mismatches();
+        let (_, nested_err) = balance::take_nested_counters();
+        nested_err_total += nested_err;
+        if failure.is_none() {
+            if !nms.is_empty() {
+                failure = Some(format!("nested-not-restored[{}]@fuel={}", nested_text(&nms), n));
+            } else if !ms.is_empty() {
+                failure = Some(format!("depth-mismatch[{}]@fuel={}", mismatch_text(&ms), n));
+            } else if res.is_err() {
+                failure = Some(format!("panic@{}|fuel={}", last_panic_location(), n));
+            }
+        }
+        match res {
+            // (an include or a macro wraps the error of its body: look through the sources)
+            Ok(Err(e)) if out_of_fuel(&e) => {}
+            // the render got through (or ends in an error of its own): every position was visited
+            _ => break,
+        }
+        n += if n < 150 { 1 } else { 3 };
+    }
+    env.set_fuel(Some(200_000));
+    (tried, nested_err_total, failure)
+}
+
+/// Failure at every frame-pushing position: the template is rendered under recursion limits 1, 2, 3, …
+/// so that in turn every `PushWith` / `PushLoop` / macro call / include / block call / `super()` is the
+/// one that exceeds the limit (`Context::push_frame` takes the frame off again, `incr_depth` gives
+/// the cost back).  Same oracle as the fuel sweep: snapshots around every nested evaluation on the
+/// way out, depth counters of the activations that finished.
+fn limit_sweep(env: &mut Environment<'static>, tname: &str, p: &Params) -> (usize, u64, Option<String>) {
+    let ctx = engine_ctx(p);
+    let mut tried = 0usize;
+    let mut nested_err_total = 0u64;
+    let mut failure: Option<String> = None;
+    for limit in 1..=48usize {
+        env.set_recursion_limit(limit);
+        let _ = balance::take_mismatches();
+        let _ = balance::take_counters();
+        let _ = balance::take_nested_mismatches();
+        let _ = balance::take_nested_counters();
+        let res = guarded(|| env.get_template(tname).unwrap().render(ctx.clone()));
+        tried += 1;
+        let ms = balance::take_mismatches();
+        let nms = balance::take_nested_mismatches();
+        let (_, nested_err) = balance::take_nested_counters();
+        nested_err_total += nested_err;
+        if failure.is_none() {
+            if !nms.is_empty() {
+                failure = Some(format!("nested-not-restored[{}]@limit={}", nested_text(&nms), limit));
+            } else if !ms.is_empty() {
+                failure = Some(format!("depth-mismatch[{}]@limit={}", mismatch_text(&ms), limit));
+            } else if res.is_err() {
+                failure = Some(format!("panic@{}|limit={}", last_panic_location(), limit));
+            }
+        }
+    }
+    env.set_recursion_limit(500);
+    (tried, nested_err_total, failure)
+}
+
+static THOROUGH: std::sync::atomic::AtomicBool = std::sync::atomic::AtomicBool::new(false);
 
 fn do_shape(out: &mut impl std::io::Write, shape: &Shape, verbose: bool) -> bool {
     do_shape_n(out, shape, verbose, None)
@@ -1330,13 +1726,72 @@ fn do_shape_n(out: &mut impl std::io::Write, shape: &Shape, verbose: bool, idx: 
     if verbose {
         eprintln!("source: {}", src);
     }
+    // the operand stack heights of every activation: for every shape with a loop recursion, and for
+    // every `trace_every`-th other shape
+    let trace_every: usize = std::env::var("VERIF_C05_TRACE_EVERY")
+        .ok()
+        .and_then(|x| x.parse().ok())
+        .unwrap_or(16)
+        .max(1);
+    // (of the recursion shapes deeper than 3, every fourth)
+    let traced = (Shape::is_rec_leaf(shape.leaf) && (shape.kinds.len() <= 3 || idx.map_or(true, |i| i % 4 == 0)))
+        || idx.map_or(true, |i| i % trace_every == 0);
+    let mut ops = if traced { Some(OpsTraces::new(&env.get_template(tname).unwrap())) } else { None };
     let params = params_for(shape);
     for p in params.iter() {
+        ops_record(traced);
         let r = run_dynamic(&env, tname, shape, p, Entry::Render, &src, verbose);
+        ops_record(false);
+        if let Some(o) = ops.as_mut() {
+            o.absorb();
+        }
         writeln!(out, "R\t{}\t{}\t{}\t{}", name, class, params_name(p), r).unwrap();
+    }
+    if let Some(o) = ops.as_ref() {
+        o.dump(out, &name, &class);
+        if verbose {
+            eprintln!("operand traces: {} events kept, {} activations on other streams", o.events, o.unmatched);
+        }
     }
     // the same shape through other entry points and under other environment configurations
     let last = params.last().unwrap().clone();
+    // failure at every instruction position, for the shapes with nested evaluations
+    let thorough = THOROUGH.load(std::sync::atomic::Ordering::Relaxed);
+    let sweep_every: usize = std::env::var("VERIF_C05_SWEEP_EVERY")
+        .ok()
+        .and_then(|x| x.parse().ok())
+        .unwrap_or(if thorough { 48 } else { 96 })
+        .max(1);
+    let has_nested = shape.kinds.iter().any(|k| {
+        matches!(
+            k,
+            Kind::Mac | Kind::Call | Kind::Blk | Kind::TMac | Kind::TCal | Kind::TBlk | Kind::SeqI | Kind::SeqM | Kind::SeqH | Kind::SeqP
+        )
+    });
+    if has_nested && idx.map_or(true, |i| i % sweep_every == 0) {
+        let (tried, nested_err, failure) = fuel_sweep(&mut env, tname, &last);
+        let verdict = match failure {
+            None => "ok".to_string(),
+            Some(f) => format!("fail:{}", f),
+        };
+        writeln!(
+            out,
+            "R\t{}\t{}\t{} fuel-sweep positions={} nested-errors={}\t{}",
+            name, class, params_name(&last), tried, nested_err, verdict
+        )
+        .unwrap();
+        let (tried, nested_err, failure) = limit_sweep(&mut env, tname, &last);
+        let verdict = match failure {
+            None => "ok".to_string(),
+            Some(f) => format!("fail:{}", f),
+        };
+        writeln!(
+            out,
+            "R\t{}\t{}\t{} limit-sweep positions={} nested-errors={}\t{}",
+            name, class, params_name(&last), tried, nested_err, verdict
+        )
+        .unwrap();
+    }
     let entries: Vec<(Entry, &str)> = match idx {
         Some(i) => vec![ENTRIES[1 + i % (ENTRIES.len() - 1)]],
         None => ENTRIES[1..].to_vec(),
@@ -1382,6 +1837,7 @@ fn is_core(k: Kind) -> bool {
             | Kind::ForE
             | Kind::ForEl
             | Kind::ForR
+            | Kind::ForRE
             | Kind::With
             | Kind::Set
             | Kind::Ae1
@@ -1403,6 +1859,14 @@ fn enumerate(max_depth: usize, f: &mut impl FnMut(&Shape)) {
     fn rec(kinds: &mut Vec<Kind>, max_depth: usize, f: &mut impl FnMut(&Shape)) {
         if !kinds.is_empty() {
             for (leaf, _) in LEAVES.iter() {
+                // the recursion forms with waiting operands: every chain up to depth 2, the chains of
+                // core kinds beyond (the other kinds come with the sampled deeper chains)
+                if matches!(leaf, Leaf::RecP | Leaf::RecL | Leaf::RecM | Leaf::RecN)
+                    && kinds.len() >= 3
+                    && !kinds.iter().all(|x| is_core(*x))
+                {
+                    continue;
+                }
                 let s = Shape { kinds: kinds.clone(), leaf: *leaf };
                 if s.admissible() {
                     f(&s);
@@ -1551,7 +2015,12 @@ fn do_fixtures(out: &mut impl std::io::Write) {
         let _ = balance::take_counters();
         let ctx = Value::from(minijinja::value::Serde(ctx_json.clone()));
         let ctx = minijinja::context! { one_shot_iterator => Value::make_one_shot_iterator(0..3), ..ctx };
+        let mut ops = OpsTraces::new(&t);
+        ops_record(true);
         let res = guarded(|| t.render(ctx));
+        ops_record(false);
+        ops.absorb();
+        ops.dump(out, &case, "fixture");
         let ms = balance::take_mismatches();
         let verdict = match (&res, ms.is_empty()) {
             (Err(p), _) => format!("fail:panic@{}:{}", last_panic_location(), p.replace(['\t', '\n'], " ")),
@@ -1667,6 +2136,18 @@ fn do_extras(out: &mut impl std::io::Write) {
             "[!EOGFalseFalse<][!EOGFalseFalse<]False|main.txt~-~NZ",
         ),
         (
+            // a template that includes itself from inside its recursive loop and calls `loop(…)` outside
+            // that loop's text: the included activation re-enters the includer's loop (same
+            // instructions, loop live in the shared context) — outside the abstract machine, which
+            // only knows the loops of the activation itself; the engine's own counters are the oracle
+            "extra:self-include-recursion",
+            vec![(
+                "main.txt",
+                "{% if top is undefined %}{% for x in [[[]], []] recursive %}<{{ x|length }}{% with top = false, item = x %}{% include 'main.txt' %}{% endwith %}>{% else %}E{% endfor %}{% else %}[{{ 'p' ~ loop(item) ~ 'q' }}{{ loop(item) }}]{% endif %}Z",
+            )],
+            "<1[p<0[pq]Z>q<0[pq]Z>]Z><0[pq]Z>Z",
+        ),
+        (
             "extra:recurse-from-block",
             vec![("main.txt", "{% for x in [[1]] recursive %}{% block b %}<{{ loop(x) }}>{% endblock %}{% endfor %}Z")],
             "!error",
@@ -1718,6 +2199,7 @@ fn do_extras(out: &mut impl std::io::Write) {
 
 fn main() {
     balance::set_call_snapshots(true);
+    ops_install_hook();
     // panics are results; remember where the last one happened (its site)
     std::panic::set_hook(Box::new(|info| {
         let loc = info
@@ -1737,6 +2219,7 @@ fn main() {
         Some("gen") => {
             let tier = args.get(2).map(|s| s.as_str()).unwrap_or("quick");
             let depth = if tier == "thorough" { 4 } else { 3 };
+            THOROUGH.store(tier == "thorough", std::sync::atomic::Ordering::Relaxed);
             do_fixtures(&mut out);
             do_extras(&mut out);
             {
@@ -1768,10 +2251,14 @@ fn main() {
                     },
                     1..=4 => Leaf::Brk,
                     5..=7 => Leaf::Cont,
-                    8 => match rng.below(4) {
+                    8 => match rng.below(8) {
                         0 => Leaf::Rec,
                         1 => Leaf::RecF,
                         2 => Leaf::FailInc,
+                        3 => Leaf::RecP,
+                        4 => Leaf::RecL,
+                        5 => Leaf::RecM,
+                        6 => Leaf::RecN,
                         _ => Leaf::FailK,
                     },
                     _ => if rng.chance(1, 2) { Leaf::Fail } else { Leaf::FailK },
@@ -1795,6 +2282,7 @@ fn main() {
                     .chunks(chunk.max(1))
                     .map(|part| {
                         sc.spawn(move || {
+                            ops_install_hook();
                             let mut buf: Vec<u8> = Vec::with_capacity(1 << 20);
                             for (i, shape) in part.iter() {
                                 do_shape_n(&mut buf, shape, false, Some(*i));
